@@ -169,7 +169,7 @@ def shards(tier, seed):
     for loader in loaderfiles.LOADERS:
         nv = len(loaderfiles.VARIANTS[loader])
         for vi in range(nv):
-            if tier == 'quick' and vi > 1:
+            if tier == 'quick' and vi > 1 and loaderfiles.VARIANTS[loader][vi].get('cache') != 'EXPLICIT-STR':
                 continue
             for part in range(4):
                 out.append({'kind': 'crash', 'loader': loader, 'vi': vi, 'part': part, 'nparts': 4})
